@@ -95,6 +95,29 @@ def rng_replay(env):
     if x1 != x2 or not (shared.get_state()[1] == snap).all():
         bad.append('models seeded with one shared RandomState: streams %r vs %r, seed object consumed in place: %r' %
                    (x1, x2, not (shared.get_state()[1] == snap).all()))
+    # the same for vines: one RandomState object shared by two models
+    try:
+        import pandas as pd
+        from copulas.multivariate import VineCopula
+        X = pd.DataFrame(rs.normal(size=(60, 2)) @ np.array([[1.0, 0.6], [0.0, 0.8]]), columns=['c', 'a'])
+        for vt in ('center', 'direct', 'regular'):
+            shared = np.random.RandomState(11)
+            snap = shared.get_state()[1].copy()
+            np.random.seed(5)
+            g0 = np.random.get_state()[1].copy()
+            v1, v2 = VineCopula(vt, random_state=shared), VineCopula(vt, random_state=shared)
+            v1.fit(X)
+            v2.fit(X)
+            s1, s2 = v1.sample(2), v2.sample(2)
+            if not s1.equals(s2) or not (shared.get_state()[1] == snap).all():
+                bad.append('%s vines seeded with one shared RandomState: equal streams %r, seed object consumed in place: %r' %
+                           (vt, bool(s1.equals(s2)), not (shared.get_state()[1] == snap).all()))
+                break
+            if not (np.random.get_state()[1] == g0).all():
+                bad.append('%s vine: seeded sampling changed the global NumPy state' % vt)
+                break
+    except Exception as e:      # noqa
+        bad.append('vine sampling: %s: %s' % (type(e).__name__, str(e)[:100]))
     # re-seeding after fit must take effect
     u = _fit(Univariate(candidates=[GaussianUnivariate, UniformUnivariate], random_state=7), data)
     u.sample(2)
